@@ -3396,6 +3396,7 @@ where
             return Ok(());
         }
 
+        verif_failpoint!("ins.l3", crate::verif_hooks::tri_err("ins.l3"));
         let should_validate = self.validation_policy.should_validate(suspicion);
         let requires_link_checks = self.topology_guarantee.requires_ridge_links()
             || self
@@ -4022,6 +4023,7 @@ where
 
         // Fill cavity BEFORE removing old cells
         let new_cells = fill_cavity(&mut self.tds, v_key, &boundary_facets)?;
+        verif_failpoint!("cav.fill", crate::verif_hooks::ins_err("cav.fill"));
         self.canonicalize_positive_orientation_for_cells(&new_cells)
             .map_err(|e| TdsValidationError::InconsistentDataStructure {
                 message: format!(
@@ -4032,6 +4034,10 @@ where
         // Wire neighbors (while both old and new cells exist)
         let external_facets =
             external_facets_for_boundary(&self.tds, &conflict_cells, &boundary_facets)?;
+        verif_failpoint!(
+            "cav.external_facets",
+            crate::verif_hooks::ins_err("cav.external_facets")
+        );
         wire_cavity_neighbors(
             &mut self.tds,
             &new_cells,
@@ -4040,7 +4046,12 @@ where
         )?;
 
         // Remove conflict cells (now that new cells are wired up)
+        verif_failpoint!("cav.wire", crate::verif_hooks::ins_err("cav.wire"));
         let _removed_count = self.tds.remove_cells_by_keys(&conflict_cells);
+        verif_failpoint!(
+            "cav.remove_cells",
+            crate::verif_hooks::ins_err("cav.remove_cells")
+        );
 
         // Iteratively repair non-manifold topology until facet sharing is valid
         let mut total_removed = 0;
@@ -4145,7 +4156,12 @@ where
         }
 
         // Canonicalize cell ordering and geometric orientation invariants.
+        verif_failpoint!(
+            "cav.facet_repair",
+            crate::verif_hooks::ins_err("cav.facet_repair")
+        );
         self.normalize_and_promote_positive_orientation()?;
+        verif_failpoint!("cav.orient", crate::verif_hooks::ins_err("cav.orient"));
 
         // Assign an incident cell for the inserted vertex without a global rebuild.
         let hint = new_cells.iter().copied().find(|&ck| {
@@ -4205,6 +4221,10 @@ where
         }
 
         // Connectedness guard (STRUCTURAL SAFETY, NOT Level 3 validation)
+        verif_failpoint!(
+            "cav.connected",
+            crate::verif_hooks::ins_err("cav.connected")
+        );
         self.validate_connectedness(&new_cells)?;
 
         // Return hint for next insertion
@@ -4248,6 +4268,10 @@ where
             .map_err(TriangulationConstructionError::from)?;
 
         // 2. Check if we need to bootstrap the initial simplex
+        verif_failpoint!(
+            "ins.after_vertex",
+            crate::verif_hooks::ins_err("ins.after_vertex")
+        );
         let num_vertices = self.tds.number_of_vertices();
 
         if num_vertices < D + 1 {
@@ -4326,6 +4350,7 @@ where
         }
 
         // 4. Determine conflict cells (for interior points)
+        verif_failpoint!("ins.locate", crate::verif_hooks::ins_err("ins.locate"));
         let conflict_cells = match (location, conflict_cells) {
             (LocateResult::InsideCell(start_cell), None) => {
                 // Interior point: compute conflict region automatically.
@@ -4439,6 +4464,7 @@ where
         };
 
         // 5. Handle different location results
+        verif_failpoint!("ins.conflict", crate::verif_hooks::ins_err("ins.conflict"));
         match location {
             LocateResult::InsideCell(start_cell) => {
                 let conflict_cells = conflict_cells
@@ -4567,7 +4593,12 @@ where
                         return Err(err);
                     }
                 };
+                verif_failpoint!("hull.extend", crate::verif_hooks::ins_err("hull.extend"));
                 self.canonicalize_positive_orientation_for_cells(&new_cells)?;
+                verif_failpoint!(
+                    "hull.orient_cells",
+                    crate::verif_hooks::ins_err("hull.orient_cells")
+                );
                 #[cfg(debug_assertions)]
                 if std::env::var_os("DELAUNAY_DEBUG_HULL").is_some() {
                     tracing::debug!(
@@ -4720,7 +4751,12 @@ where
                 }
 
                 // Canonicalize cell ordering and geometric orientation invariants.
+                verif_failpoint!(
+                    "hull.facet_repair",
+                    crate::verif_hooks::ins_err("hull.facet_repair")
+                );
                 self.normalize_and_promote_positive_orientation()?;
+                verif_failpoint!("hull.orient", crate::verif_hooks::ins_err("hull.orient"));
 
                 // Assign an incident cell for the inserted vertex without a global rebuild.
                 let hint = new_cells.iter().copied().find(|&ck| {
@@ -4764,6 +4800,10 @@ where
 
                 // Connectedness guard (localized): ensure the newly created cell set is internally
                 // connected and attached to the existing triangulation.
+                verif_failpoint!(
+                    "hull.connected",
+                    crate::verif_hooks::ins_err("hull.connected")
+                );
                 self.validate_connectedness(&new_cells)?;
 
                 // Return vertex key and hint for next insertion
@@ -4881,6 +4921,10 @@ where
                 })?;
 
             // Wire neighbors for the new cells (while both old and new cells exist)
+            verif_failpoint!(
+                "rm.fan_fill",
+                crate::verif_hooks::tds_err("rm.fan_fill").into()
+            );
             let external_facets =
                 external_facets_for_boundary(&self.tds, &cells_to_remove, &boundary_facets)
                     .map_err(|e| TdsValidationError::InconsistentDataStructure {
@@ -4899,6 +4943,7 @@ where
             // Remove the cells containing the vertex (now that new cells are wired up)
             // Note: remove_cells_by_keys() automatically clears neighbor pointers in surviving
             // cells that reference removed cells (sets them to None/boundary)
+            verif_failpoint!("rm.wire", crate::verif_hooks::tds_err("rm.wire").into());
             let mut cells_removed = self.tds.remove_cells_by_keys(&cells_to_remove);
 
             // Validate facet topology for newly created cells (O(k*D) localized check)
@@ -4927,6 +4972,10 @@ where
             }
             // Fan retriangulation may produce locally inconsistent slot orderings; normalize
             // orientation before rebuilding incidence and removing the vertex.
+            verif_failpoint!(
+                "rm.remove_cells",
+                crate::verif_hooks::tds_err("rm.remove_cells").into()
+            );
             self.tds.normalize_coherent_orientation()?;
             self.canonicalize_global_orientation_sign().map_err(|e| {
                 TdsValidationError::InconsistentDataStructure {
@@ -4944,11 +4993,20 @@ where
             })?;
 
             // Rebuild vertex-cell incidence for all vertices
+            verif_failpoint!("rm.orient", crate::verif_hooks::tds_err("rm.orient").into());
             self.tds.assign_incident_cells()?;
 
             // Remove the vertex using Tds method (handles internal bookkeeping)
+            verif_failpoint!(
+                "rm.incident",
+                crate::verif_hooks::tds_err("rm.incident").into()
+            );
             self.tds.remove_vertex(vertex)?;
 
+            verif_failpoint!(
+                "rm.removed",
+                crate::verif_hooks::tds_err("rm.removed").into()
+            );
             Ok(cells_removed)
         })();
 
